@@ -222,10 +222,26 @@ package saml
 //@    sp.SignatureVerifier != nil || ChildLookup(el, "http://www.w3.org/2000/09/xmldsig#", "Signature", nil, nil) ||
 //@    ChildLookup(el, "http://www.w3.org/2000/09/xmldsig#", "Signature", nil, err)
 
+//@ -- SerialisedFrom(b, el): b is the serialisation of a document whose root is a copy of el
+//@ ghost func SerialisedFrom(b []byte, el *etree.Element) bool
+//@ ghost func AssertionDecodedFrom(data []byte, a Assertion) bool
+//@ ghost func ResponseDecodedFrom(data []byte, r Response) bool
+//@ ghost func ArtifactResponseDecodedFrom(data []byte, r ArtifactResponse) bool
+//@ ghost func LogoutResponseDecodedFrom(data []byte, r LogoutResponse) bool
+//@ axiom serialised_copy (b []byte, doc *etree.Document, el *etree.Element):
+//@    SerialisedDoc(b, doc) && CopyOf(doc.Root(), el) ==> SerialisedFrom(b, el)
+//@ axiom assertion_read (b []byte, el *etree.Element, a Assertion):
+//@    SerialisedFrom(b, el) && AssertionDecodedFrom(b, a) ==> AssertionReadFrom(el, a)
+//@ axiom response_read (b []byte, el *etree.Element, r Response):
+//@    SerialisedFrom(b, el) && ResponseDecodedFrom(b, r) ==> ResponseReadFrom(el, r)
+//@ axiom artifact_response_read (b []byte, el *etree.Element, r ArtifactResponse):
+//@    SerialisedFrom(b, el) && ArtifactResponseDecodedFrom(b, r) ==> ArtifactResponseReadFrom(el, r)
+//@ axiom logout_response_read (b []byte, el *etree.Element, r LogoutResponse):
+//@    SerialisedFrom(b, el) && LogoutResponseDecodedFrom(b, r) ==> LogoutResponseReadFrom(el, r)
+//@ -- proved from the body: the bytes decoded into v are the serialisation of a copy of el, of nothing else
 //@ contract unmarshalElement
-//@ trusted
 //@ requires el: el != nil
-//@ ensures[C01] source: err == nil ==> valueReadFrom(v, el)
+//@ ensures[C01,C18] source: err == nil ==> valueReadFrom(v, el)
 
 //@ -- ------------------------------------------------------------------------------------------
 //@ -- the parse path
@@ -397,6 +413,8 @@ package saml
 //@ -- pool, a cache or a package variable keeps and another request (whose message nobody signed) may write meanwhile
 //@ ghost func allocatedHereBytes(b []byte) bool
 //@ assert@return[C01,C18] #each (out []byte, rerr error) serialised_into_own_memory: out != nil ==> allocatedHereBytes(out)
+//@ -- what is serialised is a copy of the element passed in (el itself stays attached where the signature check saw it)
+//@ ensures[C01,C18] serialises_a_copy_of_el: err == nil ==> SerialisedFrom(result, el)
 //@ contract elementToString
 //@ requires el: el != nil
 
